@@ -244,8 +244,7 @@ def check_endianness(out, facts):
         if tag == 'enc':
             ev = sym.Evaluator(facts)
             ctx = sym.Ctx(ev, f)
-            ctx.env[f['params'][0]['v']] = ('param', 'slice', None)
-            ctx.env[f['params'][1]['v']] = ('dest',)
+            bind_slice_dest(f, ctx)
             v, t = ev.ev(f['thir'], ctx)
         else:
             t, v, ev = wire.infer_decoder_fn(facts, f)
